@@ -259,6 +259,72 @@ func c15Drive(f int, src io.Reader, streamLen int, zero bool, ngopts pcapgo.NgRe
 	return
 }
 
+// c15Aux reads the stream once more interleaving the reader's other exported calls: the descriptive getters after every
+// read and - for pcapng - SkipSection at a position given by the case number (also when the previous call failed). Only
+// a panic or an endless run is judged here.
+func c15Aux(f int, stream []byte, ngopts pcapgo.NgReaderOptions, idx int) *vlib.PanicInfo {
+	budget := len(stream)/4 + 16
+	return vlib.Guard(func() {
+		src := bytes.NewReader(stream)
+		switch f {
+		case fmtClassic:
+			x, err := pcapgo.NewReader(src)
+			if x == nil || err != nil {
+				return
+			}
+			_, _, _, _ = x.String(), x.Resolution(), x.LinkType(), x.Snaplen()
+			if idx%8 == 0 {
+				x.SetSnaplen(uint32(64 + idx%1500))
+			}
+			for n := 0; n < budget; n++ {
+				if _, _, err := x.ReadPacketData(); err != nil {
+					break
+				}
+				_ = x.String()
+			}
+		case fmtNg:
+			x, err := pcapgo.NewNgReader(src, ngopts)
+			if x == nil || err != nil {
+				return
+			}
+			skipAt := idx / 4 % 5
+			for n := 0; n < budget; n++ {
+				_, _, _ = x.Resolution(), x.LinkType(), x.SectionInfo()
+				for i := 0; i <= x.NInterfaces(); i++ {
+					if in, e := x.Interface(i); e == nil {
+						_ = in.Resolution()
+					}
+				}
+				for i := -1; i <= x.NNames(); i++ {
+					x.Name(i)
+				}
+				if n == skipAt {
+					if x.SkipSection() != nil {
+						break
+					}
+					continue
+				}
+				if _, _, _, err := x.ReadPacketDataWithOptions(); err != nil {
+					if n > skipAt || x.SkipSection() != nil {
+						break
+					}
+				}
+			}
+		default:
+			x, err := pcapgo.NewSnoopReader(src)
+			if x == nil || err != nil {
+				return
+			}
+			for n := 0; n < budget; n++ {
+				x.LinkType()
+				if _, _, err := x.ReadPacketData(); err != nil {
+					break
+				}
+			}
+		}
+	})
+}
+
 func c15Judge(c *vlib.Ctx, f int, res c15Res, stream []byte, what string, checkAlloc bool) bool {
 	c.Step()
 	det := func() map[string]any {
@@ -373,6 +439,13 @@ func c15Hostile(c *vlib.Ctx) {
 		}
 		res := c15Drive(f, bytes.NewReader(stream), len(stream), idx%2 == 0, opts)
 		c15Judge(c, f, res, stream, what, checkAlloc)
+		if idx%4 == 0 && !res.ctor && res.final != "not read: declared snap length above 64 MiB" {
+			if pi := c15Aux(f, stream, opts, idx); pi != nil {
+				c.Violation("aux:"+pi.Key, fmt.Sprintf("%s reader panicked in the calls around reading (section skipping, descriptions, resolution, names) (%s): %s", fmtNames[f], what, pi.Value),
+					map[string]any{"format": fmtNames[f], "mutation": what, "stream_len": len(stream), "stream_hex": fmt.Sprintf("%x", stream[:min(len(stream), 1500)])})
+			}
+			c.Count("streams_read_with_auxiliary_calls", 1)
+		}
 		if !res.ctor {
 			c.NonTrivial(vlib.HashBytes(stream))
 			c.Count("streams_past_the_file_header", 1)
